@@ -193,6 +193,13 @@ def run(ctx):
                 do(ctx, 'C_roundtrip', [k, q, N, mode], nontrivial=('Cr', k, N, mode))
     ctx.res.exhaustive = True
     do(ctx, 'C_group', [], nontrivial='C_group')
+    # wrong COUNTS are rejected whatever the labels are -- repeated labels included (every tuple over three labels of every wrong length up to 4)
+    for nm, arity in ((0, 1), (1, 1), (2, 1), (3, 1), (4, 1), (5, 2), (107, 1)):
+        for L in range(0, 5):
+            if L != arity:
+                for qs in itertools.product(range(3), repeat=L):
+                    if len(set(qs)) < L or L == 0 or rng.random() < 0.3:
+                        do(ctx, 'guards', [nm, list(qs)], nontrivial=('gr', nm, str(qs)))
     for nm, qs in [(0, []), (0, [0, 1]), (1, [0, 1]), (2, [0, 1]), (2, []), (3, [0, 1]), (3, []), (4, []), (1, []), (4, [1, 2, 3]), (5, [0]), (5, [0, 1, 2]), (124, [0]), (130, [0]), (99, [0]), (100, [0, 1]), (111, [])]:
         do(ctx, 'guards', [nm, qs], nontrivial=('g', nm, str(qs)))
     # every call of a named-gate constructor hands out a fresh table (users rotate / transform gate maps in place, a CliffordMap is a PauliList)
